@@ -3,11 +3,19 @@
 Require Extraction.
 Require Import ExtrOcamlBasic ExtrOcamlZBigInt.
 From Coq Require Import ZArith QArith String.
-From GMGP Require Import Scalar GridDefs TridiagDefs SparseLUDefs ObjectsDefs InterpDefs StencilDefs.
+From GMGP Require Import Scalar GridDefs TridiagDefs SparseLUDefs ObjectsDefs InterpDefs StencilDefs SmootherDefs.
 From GMGPGen Require Import GridIndexGen SpecialMembersGen.
 
 Extraction Language OCaml.
 Set Extraction Optimize.
+
+(* our own directives (on top of ExtrOcamlBasic / ExtrOcamlZBigInt): the gcd used by Qred.
+   Coq's binary ggcd on emulated positives dominated the run time of the exact-rational models. *)
+Extract Constant Z.gcd => "Big_int_Z.gcd_big_int".
+Extract Constant Z.ggcd =>
+  "(fun a b -> let g = Big_int_Z.gcd_big_int a b in
+    if Big_int_Z.sign_big_int g = 0 then (g, (a, b))
+    else (g, (Big_int_Z.div_big_int a g, Big_int_Z.div_big_int b g)))".
 
 Definition q_split_explicit := split_explicit Q Qltb.
 
@@ -42,6 +50,11 @@ Definition q_A_take_row := @A_take_row Qsc.
 Definition q_A_give_row := @A_give_row Qsc.
 Definition q_rhs_weight := @rhs_weight Qsc.
 
+Definition q_block_update := @block_update Qsc.
+Definition q_resid := @resid Qsc.
+Definition q_smoother_blocks := smoother_blocks.
+Definition q_ext_smoother_blocks := ext_smoother_blocks.
+
 Extraction "model"
   Qsc Qltb Qred Qplus Qminus Qmult Qdiv Qopp Qle_bool Qeq_bool
   Z.add Z.sub Z.mul Z.opp Z.pow Z.ltb Z.eqb Z.of_nat Z.to_nat Pos.add Pos.mul
@@ -55,4 +68,5 @@ Extraction "model"
   gen_SymmetricTridiagonalSolver_move_assign
   q_lu_factor q_lu_solve q_csr_apply q_pivots q_csr_of_triplets q_csr_of_arrays
   q_P_row q_R_row q_Pex_row q_Rex_row q_Inj_row q_FMG_row wrap1
-  q_A_take_row q_A_give_row q_rhs_weight.
+  q_A_take_row q_A_give_row q_rhs_weight
+  q_block_update q_resid q_smoother_blocks q_ext_smoother_blocks.
